@@ -369,6 +369,17 @@ class Engine2:
             return py_mod(l, r)
         if isinstance(op, ast.BitAnd) and not is_sym(r):
             return bitand_const(as_int(l), r)
+        if isinstance(op, ast.BitAnd) and not is_sym(l):
+            return bitand_const(as_int(r), l)
+        if isinstance(op, ast.BitOr) and not is_sym(r) and r >= 0 and r == (1 << r.bit_length()) - 1:
+            # x | (2**k-1)  ==  x - (x mod 2**k) + (2**k-1)
+            return as_int(l) - py_mod(as_int(l), r + 1) + r
+        if isinstance(op, ast.BitOr) and not is_sym(r) and r > 0 and (r + (r & -r)) & r == 0 and False:
+            pass
+        if isinstance(op, (ast.RShift,)) and not is_sym(r):
+            return py_floordiv(as_int(l), 1 << r)
+        if isinstance(op, (ast.LShift,)) and not is_sym(r):
+            return as_int(l) * (1 << r)
         raise Undecided(f"binop {type(op).__name__} on symbolic")
 
     def compare(self, op, l, r):
